@@ -304,14 +304,42 @@ def check_program(spec, pipeline, seed):
     return None
 
 
+def directed(tier):
+    """Every binary op on every ordered pair of boundary constants (both operands constant: the folders' home ground), per type."""
+    out = []
+    fconst = [0.0, -0.0, 1.0, -1.5, math.inf, -math.inf, math.nan, 1e30]
+    for ty in (["i1", "i8", "i64", "f64", "f32"] if tier == "quick" else ["i1", "i8", "i32", "i64", "index", "f32", "f64"]):
+        if ty.startswith("f"):
+            consts, kinds = fconst, [(k,) for k in FLOAT_OPS]
+        else:
+            M = 1 << WIDTH[ty]
+            consts = sorted({x % M for x in (0, 1, M - 1, M >> 1, 3, WIDTH[ty])})
+            kinds = [(k,) for k in INT_OPS] + [("cmpi", p) for p in range(10)]
+        for k in kinds:
+            ops = [("const", c) for c in consts]
+            ret = []
+            for i in range(len(consts)):
+                for j in range(len(consts)):
+                    ops.append(k + (i, j))
+                    if k[0] != "cmpi" or ty == "i1":
+                        ret.append(len(consts) + len(ret))
+            if k[0] == "cmpi" and ty != "i1":
+                # results are i1: return them through selects on the main type
+                base = len(ops)
+                for q in range(len(consts) ** 2):
+                    ops.append(("select", q, 1, 0))
+                    ret.append(len(consts) + q)
+            out.append({"ty": ty, "nargs": 0, "ops": ops, "ret": ret})
+    return out
+
+
 def explore(tier, seed):
     rnd = random.Random(seed)
     n = 250 if tier == "quick" else 4000
     cases = 0
     fails = []
     seen = set()
-    for _ in range(n):
-        spec = gen(rnd)
+    for spec in directed(tier) + [gen(rnd) for _ in range(n)]:
         for p in PASSES:
             cases += 1
             f = check_program(spec, p, seed)
@@ -320,7 +348,7 @@ def explore(tier, seed):
                 seen.add(k)
                 fails.append(f)
     return {"cases": cases, "failures": fails, "exhaustive": False,
-            "bound": f"{n} seeded single-block programs (<= 6 arith ops of 20 integer kinds, cmpi, select, 4 float kinds; types i1/i8/i32/i64/index/f32/f64; boundary "
+            "bound": f"directed family (every int/float binary op and cmpi predicate on every ordered pair of boundary constants per type) + {n} seeded single-block programs (<= 6 arith ops of 20 integer kinds, cmpi, select, 4 float kinds; types i1/i8/i32/i64/index/f32/f64; boundary "
                      f"constants) x pipelines {PASSES}; evaluated before/after on 12 boundary input vectors with an independent reference evaluator"}
 
 
